@@ -281,12 +281,58 @@ def rule_ctor_symmetry(ctx):
                     ctx.unknown("C01.4", init, init.node, case, "stored signal/noise not identified on this path")
                     continue
                 sig, noi, node = lay
+                if cls == "optical_signal":
+                    # the stored array has one axis for one polarisation and two for two: (N,) or (2, N) - also for scalar input
+                    want_rank = extra.get("n_pol") if extra.get("n_pol") is not None else (2 if extra["signal.ndim"] == 2 else 1)
+                    got_rank = _rank(sig, extra["signal.ndim"])
+                    if got_rank is not None:
+                        ctx.check("C01.4", got_rank == want_rank, init, node, f"{case}: stored signal {sig!r} has {got_rank} axis/axes"[:300], f"{want_rank} (one per polarisation layout)",
+                                  f"the constructor stores an array with {got_rank} axis/axes for a {want_rank}-polarisation object: len(), slicing and arithmetic then read the polarisation axis as the sample axis")
                 if noise == "none":
                     ctx.check("C01.4", isinstance(noi, Const) and noi.v is None, init, node, case, "noise stays None", f"noise becomes {noi!r} although none was given")
                 else:
                     want = _mirror(sig)
                     ctx.check("C01.4", vkey_eq(noi, want), init, node, f"{case}: signal -> {sig!r}"[:300], "noise reshaped identically",
                               f"signal is laid out as {sig!r} but noise as {noi!r} (expected {want!r}): signal and noise end up with different shapes"[:400])
+
+
+def _rank(v, ndim):
+    """number of axes of a stored layout built from the local `signal` (which has `ndim` axes); None when not determined"""
+    from ..absint import VecV
+    from ..forms import SliceV
+    if isinstance(v, VecV) or isinstance(v, TupleV):
+        rs = [_rank(i, ndim) for i in v.items]
+        return None if not rs or any(r is None or r != rs[0] for r in rs) else 1 + rs[0]
+    if isinstance(v, Const):
+        return 0 if isinstance(v.v, (int, float, complex)) and not isinstance(v.v, bool) else None
+    if not isinstance(v, Form):
+        return None
+    if v.const_value() is not None:
+        return 0
+    a = v.single_atom()
+    if a is None:
+        return None
+    if a[0] == "sym":
+        return ndim if a[1] in ("signal", "noise") else None
+    if a[0] == "fn" and a[1] in ("array", "asarray", "astype", "copy", "real", "conj") and a[2]:
+        return _rank(a[2][0], ndim)
+    if a[0] == "idx":
+        base = _rank(a[1], ndim)
+        if base is None:
+            return None
+        idxs = a[2].items if isinstance(a[2], TupleV) else [a[2]]
+        r = base
+        for i in idxs:
+            if isinstance(i, Const) and i.v is None:
+                r += 1
+            elif isinstance(i, SliceV):
+                pass
+            elif isinstance(i, Form) and i.rational() is not None:
+                r -= 1
+            else:
+                return None
+        return r if r >= 0 else None
+    return None
 
 
 def vkey_eq(a, b):
